@@ -57,6 +57,10 @@ def run_case(case):
         evals += 1
         if run.data is None:
             obs['write-raised:%s:%s' % (run.wout[1], run.wout[2][:50])] = obs.get('write-raised', 0) + 1
+            # every specification of this workload is valid: payloads that cannot be written at all are not "exact, in order,
+            # under their object" either
+            vio.append({'prop': PROP, 'kind': 'valid-no-format-spec-not-writable', 'mech': 'not-writable:' + run.wout[1],
+                        'detail': f'{run.wout[1]}: {run.wout[2][:200]}'})
             return
         oracle.check_c16(run)
         if run.stage_error is not None:
